@@ -20,6 +20,11 @@ FORCE = None
 PID = "C11"
 
 
+def _reader(rng):
+    return {"gsc": {"kind": "User", "evals": int(rng.integers(200, 700)), "metaepochs": int(rng.integers(4, 9)), "look": True}, "min_generations": 2,
+            "nlev": int(rng.choice([2, 2, 3])), "engines": {0: ["sea", "de", "shade", "ded", "seax"], 1: ["sea", "de", "shade", "cma"], 2: ["sea", "de", "cma"]}}
+
+
 def run(ctx):
     from .. import engine
 
@@ -29,6 +34,10 @@ def run(ctx):
         _contracted(ctx),
         engine.slice_engine(ctx, ctx.rng(81), ctx.size(250, 3000), only="C11/"),
         fault_chain(ctx, ctx.size(40, 500)),
+        # a user-defined stop condition that reads populations, histories and centroids at EVERY consult — also
+        # between two generations of a running metaepoch: reading changes nothing
+        refine.refine_batch(ctx, ctx.size(30, 300), salt=55, force=_reader, pid=PID, name="trace-refinement(a stop condition that reads the demes between generations)"),
+        runs.monitor_batch(ctx, PID, ctx.size(50, 500), salt=57, name="traced-runs-monitor-C11(a stop condition that reads the demes between generations)", force=_reader),
     ]
 
 
